@@ -373,7 +373,7 @@ Proof.
     constructor; [|constructor]. split; cbn [scope_loc]; [left; reflexivity|].
     right. apply in_or_app. right. apply in_or_app. right. left. reflexivity.
   - (* fornum *)
-    intros n vl e1 e2 e3 b l _ _ _ _ _ _ IH1 IH2 IH3 [IHs IHv]. cbn [sk_stat m2_stat fst snd]. split; [|constructor].
+    intros n vl e1 e2 e3 b l _ _ _ _ _ IH1 IH2 IH3 [IHs IHv]. cbn [sk_stat m2_stat fst snd]. split; [|constructor].
     constructor; [|constructor]. split; cbn [scope_loc]; [left; reflexivity|].
     right. do 5 (apply in_or_app; right). left. reflexivity.
   - (* forin *)
